@@ -26,6 +26,15 @@ def scenario_nodes():
     k = srv.fnode(["PS3ISO", "game.dkey"], 32, cid="dkey", mtime=t + 8)
     k["raw"] = KEY.encode().hex()
     nodes.append(k)
+    # a second redump image whose key exists only in the sibling REDKEY directory (the second lookup branch of the key probe)
+    img2 = srv.fnode(["PS3ISO", "other.iso"], 8 * 2048, cid="enc_other", mtime=t + 10)
+    img2["enc"] = {"kind": "redump", "key": KEY, "regions": [[0, 2], [4, 6], [7, 8]], "sectors": 8, "extraLen": 0, "plainName": "plain_other"}
+    img2["vcid"] = "plain_other"
+    nodes.append(img2)
+    nodes.append(srv.dnode(["REDKEY"], t + 11))
+    k2 = srv.fnode(["REDKEY", "other.dkey"], 32, cid="dkey2", mtime=t + 12)
+    k2["raw"] = KEY.encode().hex()
+    nodes.append(k2)
     return nodes
 
 
@@ -36,6 +45,8 @@ SESSIONS = {
              {"op": "READ_FILE_CRITICAL", "limit": 4096, "off": 57344}, {"op": "OPEN_FILE", "path": "/***DVD***/a"}, {"op": "READ_FILE", "limit": 100, "off": 100000}],
     "enc": [{"op": "OPEN_FILE", "path": "/PS3ISO/game.iso"}, {"op": "READ_FILE", "limit": 5000, "off": 6000}, {"op": "READ_FILE_CRITICAL", "limit": 2048, "off": 4096},
             {"op": "OPEN_FILE", "path": "/CLOSEFILE"}],
+    "encred": [{"op": "OPEN_FILE", "path": "/PS3ISO/other.iso"}, {"op": "READ_FILE", "limit": 5000, "off": 1000}, {"op": "OPEN_FILE", "path": "/PS3ISO/other.iso"},
+               {"op": "READ_FILE_CRITICAL", "limit": 2048, "off": 10240}],
     "cd": [{"op": "OPEN_FILE", "path": "/a/psx.bin"}, {"op": "READ_CD_2048", "start": 1, "count": 2}, {"op": "READ_CD_2048", "start": 5, "count": 1},
            {"op": "STAT_FILE", "path": "/a/psx.bin"}],
     "listing": [{"op": "OPEN_DIR", "path": "/a"}, {"op": "READ_DIR_ENTRY"}, {"op": "READ_DIR_ENTRY"}, {"op": "READ_DIR_ENTRY_V2"}, {"op": "READ_DIR"},
